@@ -206,6 +206,9 @@ func checkC14(c *Ctx) {
 	c14Wrappers(c)
 	c03Passthrough(c)
 	c14ClientDecoders(c)
+	// the handshake answer: capabilities are computed alike for every transport's server
+	c16Caps(c)
+	c14ResultPresence(c)
 }
 
 func fnameOrNil(f *ssa.Function) string {
@@ -494,4 +497,45 @@ func c14ClientDecoders(c *Ctx) {
 			sprintf("the clients decode the answer of %s with different functions: %v", mname, per))
 	}
 	c.R.Min("R-client-decoders", 14)
+}
+
+// ---------------------------------------------------------------- R-result-presence
+// Every client decides "this message carries the answer" by the PRESENCE of the "result" member (comma-ok lookup). A
+// transport that tests the looked-up value against nil instead treats `"result": null` — what a handler returning
+// (nil, nil) produces — as "no answer yet", while its siblings return a zero result: the same call ends differently
+// depending on the transport.
+func c14ResultPresence(c *Ctx) {
+	n := 0
+	for _, fn := range c.P.LibFns {
+		if !clientSide(c, fn) {
+			continue
+		}
+		ir.EachInstr(fn, func(_ *ssa.BasicBlock, _ int, in ssa.Instruction) {
+			lk, ok := in.(*ssa.Lookup)
+			if !ok {
+				return
+			}
+			if k, ok := ir.ConstStr(ir.Unwrap(lk.Index)); !ok || k != "result" {
+				return
+			}
+			if _, isMap := lk.X.Type().Underlying().(*types.Map); !isMap {
+				return
+			}
+			n++
+			bad := false
+			if !lk.CommaOk {
+				// plain lookup: any nil comparison of the value decides on emptiness, not presence
+				for _, r := range *lk.Referrers() {
+					if bin, ok := r.(*ssa.BinOp); ok {
+						if _, _, ok := nilCompare(bin); ok {
+							bad = true
+						}
+					}
+				}
+			}
+			c.R.Check(!bad, "R-result-presence", "\"result\" looked up in "+fname(fn), c.Pos(lk.Pos()), "decided by presence of the member (comma-ok)",
+				sprintf("%s decides whether a message carries the answer by comparing the \"result\" value with nil: a null result (handler returned nil) is taken for a missing one on this transport only", fname(fn)))
+		})
+	}
+	c.R.Min("R-result-presence", 3)
 }
